@@ -172,20 +172,27 @@ fn stress(out: &mut Out, rounds: usize) {
     let hcu = HydraulicControlUnit::new("vcan0", da, sa);
     let mut txq = vec![];
     let is_lock = |f: &Vec<Frame>| f.len() == 1 && f[0].id().pgn_raw() == 45_824 && f[0].pdu()[3] == 0x00;
+    let started = std::time::Instant::now();
+    let mut done_rounds = 0usize;
     for r in 0..rounds {
+        // bounded in time whatever the machine is doing (the count of checks made is in the evidence)
+        if started.elapsed() > std::time::Duration::from_secs(8) {
+            break;
+        }
+        done_rounds += 1;
         txq.clear();
         let _ = hcu.trigger(&mut c2, &mut txq, &Object::Motion(Motion::StraightDrive(1000 + (r % 100) as i16)));
         // let the other thread get into its cycle with the driving command
         let t0 = ticks.load(Ordering::Acquire);
         while ticks.load(Ordering::Acquire) < t0 + 1 {
-            std::hint::spin_loop();
+            std::thread::yield_now();
         }
         txq.clear();
         let _ = hcu.trigger(&mut c2, &mut txq, &Object::Motion(Motion::StopAll));
         // stop-all is now the latest command: after the cycles that were under way have finished, a cycle must lock
         let t1 = ticks.load(Ordering::Acquire);
         while ticks.load(Ordering::Acquire) < t1 + 2 {
-            std::hint::spin_loop();
+            std::thread::yield_now();
         }
         let mut last = vec![];
         let _ = hcu.tick(&mut c2, &mut last);
@@ -198,7 +205,7 @@ fn stress(out: &mut Out, rounds: usize) {
     let _ = ticker.join();
     let _ = checks;
     out.case(&format!("stress {}", rounds), &violations.to_string(), true);
-    out.count_n("two-thread stress: stop-all checked after concurrent cycles", rounds as u64);
+    out.count_n("two-thread stress: stop-all checked after concurrent cycles", done_rounds as u64);
 }
 
 pub fn run(out: &mut Out, tier: &str, rng: &mut Rng) {
